@@ -11,11 +11,70 @@ ghost var ctxState() int              // the private state of a parser.Context
 
 iface parser.Context.ComputeIfAbsent
   modifies ctxState
+ghost var ctxVal(k int) addr          // the value stored in a parser.Context under key k
 iface parser.Context.Set
   nilable arg1
+  updates ctxVal(k) = (k == int(arg0) ? arg1 : ctxVal(k))
   modifies ctxState
 iface parser.Context.Get
+  ensures result == ctxVal(int(arg0))
   modifies nothing
+
+// ---- footnotes (C16), producer side: what the AST transformer leaves in the tree ----
+macro fnList()       = ctxVal(int(footnoteListKey))
+macro fnLinks()      = ifslice(ctxVal(int(footnoteLinkListKey)), "[]*ast.FootnoteLink")
+ghost linkPos(p int) int              // position of a reference node in the list of references (an injection witnesses distinctness)
+macro mval(m, k)     = (mapHas(m, k) ? mapGet(m, k) : 0)
+macro isFn(v)        = typeis(v, "*ast.Footnote")
+macro fnIndex(v)     = ifptr(v, "*ast.Footnote").Index
+macro kidsAreFn(L)   = forall i int {kid(L, i)} :: (0 <= i && i < klen(L)) ==> isFn(kid(L, i))
+macro isKidOf(v, L)  = (par(v) == L && 0 <= kidx(v) && kidx(v) < klen(L) && kid(L, kidx(v)) == v)
+// every definition in front of position `upto` of the list is a referenced one
+macro refdBefore(L, v) = forall i int {kid(L, i)} :: (0 <= i && i < klen(L) && (v == nil || i < kidx(v))) ==> fnIndex(kid(L, i)) >= 0
+
+// the comparison closure handed to SortChildren only reads
+func (*footnoteASTTransformer).Transform$1
+  modifies nothing
+
+// Assumed about the parse phase (established by footnoteBlockParser.Close and footnoteParser.Parse, which put
+// these values into the Context): the list is a FootnoteList that hangs in the document, its children are Footnote
+// definitions, and its parent is not itself a definition.
+func (*footnoteASTTransformer).Transform
+  uses nodeModel
+  requires WF() && node != nil && pc != nil
+  requires [listShape] fnList() != nil ==> (typeis(fnList(), "*ast.FootnoteList") && par(fnList()) != nil && !isFn(par(fnList())) && kidsAreFn(fnList()))
+  // "a definition that is never referenced produces no output": when the list is sorted (and then kept or dropped),
+  // every definition still in it has been referenced (Index >= 0)
+  requires [links] forall j int :: (0 <= j && j < len(fnLinks())) ==> fnLinks()[j] != nil
+  requires [linksDistinct] forall j int :: (0 <= j && j < len(fnLinks())) ==> linkPos(int(fnLinks()[j])) == j     // pairwise different nodes
+  // every reference carries the number of references to its note, and the references to one note carry strictly
+  // increasing (hence pairwise different) reference indices, starting at 0
+  callassert [refCounts] ast.(*BaseNode).SortChildren#1: forall j int :: (0 <= j && j < len(fnlist)) ==> (fnlist[j].RefCount == mval(counter, fnlist[j].Index) && fnlist[j].RefIndex >= 0)
+  callassert [refIndexDistinct0] ast.(*BaseNode).FirstChild#1: forall j int, k int :: (0 <= j && j < k && k < len(fnlist) && fnlist[j].Index == fnlist[k].Index) ==> fnlist[j].RefIndex < fnlist[k].RefIndex
+  callassert [refIndexDistinct] ast.(*BaseNode).SortChildren#1: forall j int, k int :: (0 <= j && j < k && k < len(fnlist) && fnlist[j].Index == fnlist[k].Index) ==> fnlist[j].RefIndex < fnlist[k].RefIndex
+  loop 1 inv forall j int :: (0 <= j && j < len(fnlist)) ==> (fnlist[j] != nil && linkPos(int(fnlist[j])) == j)
+  loop 1 inv sameslice(fnlist, old(fnLinks())) && counter != nil && refCounter != nil && refCounter != counter
+  loop 1 inv forall x int :: mapHas(refCounter, x) ==> mapGet(refCounter, x) >= 0
+  loop 1 inv forall j int :: (0 <= j && j <= rangeindex) ==> (fnlist[j].RefCount == mval(counter, fnlist[j].Index) && 0 <= fnlist[j].RefIndex && mapHas(refCounter, fnlist[j].Index) && fnlist[j].RefIndex < mapGet(refCounter, fnlist[j].Index))
+  loop 1 inv forall j int, k int :: (0 <= j && j < k && k <= rangeindex && fnlist[j].Index == fnlist[k].Index) ==> fnlist[j].RefIndex < fnlist[k].RefIndex
+  callassert [unreferencedRemoved] ast.(*BaseNode).SortChildren#1: WF() && refdBefore(asnode(list), nil) && kidsAreFn(asnode(list))
+  loop 2 inv WF() && list != nil && asnode(list) == old(fnList()) && par(asnode(list)) == old(par(fnList()))
+  loop 2 inv footnote == nil || isKidOf(footnote, asnode(list))
+  loop 2 inv kidsAreFn(asnode(list)) && refdBefore(asnode(list), footnote)
+  loop 2 dec (footnote == nil ? 0 : klen(asnode(list)) - kidx(footnote))
+  loop 3 inv WF() && list != nil && asnode(list) == old(fnList()) && par(asnode(list)) == old(par(fnList()))
+  loop 3 inv next == nil || isKidOf(next, asnode(list))
+  loop 3 inv isKidOf(footnote, asnode(list)) && fnIndex(footnote) >= 0 && (next == nil ? kidx(footnote) == klen(asnode(list)) - 1 : kidx(next) == kidx(footnote) + 1)
+  loop 3 inv kidsAreFn(asnode(list)) && refdBefore(asnode(list), next)
+  loop 3 inv klen(asnode(list)) - kidx(footnote) == decathead(2)
+  loop 3 inv container != nil && container != asnode(list) && (container == footnote || par(container) == footnote)
+  // the back-links appended so far carry RefIndex 0, 1, .. in order, all with the note's number and reference count
+  loop 3 inv 1 <= i && klen(container) >= i
+  loop 3 inv forall j int {kid(container, j)} :: (klen(container) - i <= j && j < klen(container)) ==> (typeis(kid(container, j), "*ast.FootnoteBacklink") &&
+       ifptr(kid(container, j), "*ast.FootnoteBacklink").RefIndex == j - (klen(container) - i) &&
+       ifptr(kid(container, j), "*ast.FootnoteBacklink").RefCount == refCount &&
+       ifptr(kid(container, j), "*ast.FootnoteBacklink").Index == index)
+  loop 3 dec refCount - i
 
 // ---- tables (C17): every body row has exactly as many cells as there are columns ----
 func (*tableParagraphTransformer).parseRow
